@@ -538,7 +538,11 @@ ALIASES = {
     "hyperboloid": ("hyperboloid", "HYPERBOLOID"),
     "projective": ("projective", "PROJECTIVE"),
 }
-ROUTES = ("array", "list", "tuple", "get_point", "enum", "alias", "copy", "units")
+ROUTES = ("array", "list", "tuple", "get_point", "enum", "alias", "copy", "units",
+          "fortran", "moved-axis-view", "strided-view")
+# the last three hand the same numbers over in another memory layout (seeded
+# change C01-r3-1: an in-place normalisation through reshape(-1, n) silently
+# works on a temporary when the input is not C-contiguous)
 
 
 def construct(coords, model, route, rng=None):
@@ -562,6 +566,17 @@ def construct(coords, model, route, rng=None):
         return H.Point(c, model=al[int(rng.integers(len(al))) if rng is not None else 0])
     if route == "copy":
         return H.Point(H.Point(c, model=model))
+    if route == "fortran":
+        return H.Point(np.asfortranarray(c), model=model)
+    if route == "moved-axis-view":
+        # composite axes reversed in memory (what np.array([T, X, Y]).T gives)
+        perm = tuple(range(c.ndim - 1))[::-1] + (c.ndim - 1,)
+        v = np.transpose(np.ascontiguousarray(np.transpose(c, perm)), perm)
+        return H.Point(v, model=model)
+    if route == "strided-view":
+        big = np.zeros(c.shape[:-1] + (2 * c.shape[-1],))
+        big[..., ::2] = c
+        return H.Point(big[..., ::2], model=model)
     if route == "units":
         if c.ndim != 2:
             return H.Point(H.Point(c, model=model))
